@@ -192,20 +192,23 @@ func (s c19Setting) spec(o c19Obs, id int) c19Obs {
 func c19Prior() (*NodeBuilder, *NodeBuilder) {
 	a, b := NewNode(), NewNode()
 	r, w, c := vNondet[int]("prior.retries"), vNondet[time.Duration]("prior.wait"), vNondet[int]("prior.conc")
-	a.maxRetries, b.maxRetries = r, r
-	a.wait, b.wait = w, w
-	a.batchConcurrency, b.batchConcurrency = c, c
+	for _, n := range []*NodeBuilder{a, b} {
+		WithMaxRetries(r)(n.BaseNode)
+		WithWait(w)(n.BaseNode)
+		WithBatchConcurrency(c)(n.BaseNode)
+	}
 	switch vChoice("prior.mode", 3) {
 	case 1:
-		a.batchErrorHandling, b.batchErrorHandling = "stop", "stop"
+		WithBatchErrorHandling(false)(a.BaseNode)
+		WithBatchErrorHandling(false)(b.BaseNode)
 	case 2:
-		a.batchErrorHandling, b.batchErrorHandling = "continue", "continue"
+		WithBatchErrorHandling(true)(a.BaseNode)
+		WithBatchErrorHandling(true)(b.BaseNode)
 	}
 	if vNondet[bool]("prior.funcs") {
-		a.prepFunc, b.prepFunc = c19PrepFn(91), c19PrepFn(91)
-		a.execFunc, b.execFunc = c19ExecFn(92), c19ExecFn(92)
-		a.postFunc, b.postFunc = c19PostFn(93), c19PostFn(93)
-		a.execFallbackFunc, b.execFallbackFunc = c19FbFn(94), c19FbFn(94)
+		for _, n := range []*NodeBuilder{a, b} {
+			n.WithPrepFunc(c19PrepFn(91)).WithExecFunc(c19ExecFn(92)).WithPostFunc(c19PostFn(93)).WithExecFallbackFunc(c19FbFn(94))
+		}
 		vCover("prior-functions-set")
 	}
 	return a, b
@@ -385,7 +388,7 @@ func VH_C19_defaults() {
 	u := NewNode(42, "x", nil)
 	c19Equal(c19Observe(u), c19Observe(NewNode()), "unknown-options-ignored")
 	// a plain func(*BaseNode) is accepted as a base option
-	g := NewNode(func(b *BaseNode) { b.maxRetries = 5 })
+	g := NewNode(func(b *BaseNode) { WithMaxRetries(5)(b) })
 	vAssert(g.GetMaxRetries() == 5, "plain-func-option-accepted")
 	vCover("defaults")
 }
